@@ -126,6 +126,7 @@ BASIS = {
     "L": {"units": ["m", "cm", "km", "ft"], "cats": ["length", "depth"], "qt": "length"},
     "T": {"units": ["s", "min", "h"], "cats": ["time"], "qt": "time"},
     "M": {"units": ["kg", "g", "lbm"], "cats": ["mass"], "qt": "mass"},
+    "K": {"units": ["degC", "degF", "K"], "cats": ["temperature"], "qt": "temperature"},  # (only ever used in denominators)
 }
 
 
